@@ -24,6 +24,10 @@ def f1(x):
     return nxt()
 
 
+def z0():
+    return nxt()
+
+
 class K:
     def m(self, a):
         return nxt()
@@ -152,6 +156,8 @@ def perform(M, rt, call, truth):
     elif f == "f1":
         out = M.f1(a0)
         note("x", a0)
+    elif f == "z0":
+        out = M.z0()
     elif f == "K.m":
         out = M.K().m(a0)
         note("a", a0)
@@ -319,23 +325,33 @@ def run_same_case(case):
     different orders / duplications / batch splits / connections, stub generated in separate interpreters."""
     w = _setup()
     M = w["M"]
+    from monkeytype.db.base import CallTraceStoreLogger
     from monkeytype.db.sqlite import SQLiteStore
     from monkeytype.tracing import CallTraceLogger, trace_calls
     from mtfx import pipe_rt as rt
     w["n"] += 1
     os.environ.update(MTP_K=str(case["k"]), MTP_RW=case["rw"])
-    traces = []
-
-    class Collect(CallTraceLogger):
-        def log(self, t):
-            traces.append(t)
     path = M.__file__
-    truth = {}
-    with trace_calls(Collect(), case["k"], lambda code: code.co_filename == path):
-        for call in case["calls"]:
-            perform(M, rt, call, truth)
+    by_rot = {}
+
+    def traced(rot):
+        """The workload traced once per rotation of every call's yield sequence (the same SET of values yielded)."""
+        if rot not in by_rot:
+            got = []
+
+            class Collect(CallTraceLogger):
+                def log(self, t):
+                    got.append(t)
+            with trace_calls(Collect(), case["k"], lambda code: code.co_filename == path):
+                for call in case["calls"]:
+                    ysv = call.get("ys", [])
+                    r = rot % len(ysv) if ysv else 0
+                    perform(M, rt, dict(call, ys=ysv[r:] + ysv[:r]), {})
+            by_rot[rot] = got
+        return by_rot[rot]
     obs, tdobs, texts = [], [], []
     for vi, var in enumerate(case["variants"]):
+        traces = traced(var.get("ys_rot", 0))
         db = os.path.join(w["dir"], "v%d_%d_%d.db" % (os.getpid(), w["n"], vi))
         seq = [traces[i % len(traces)] for i in var["order"]] if traces else []
         cuts = sorted(set(c for c in var["split"] if 0 < c < len(seq)))
@@ -344,7 +360,11 @@ def run_same_case(case):
         for bi, b in enumerate(batches):       # one connection per batch
             st = SQLiteStore.make_store(db)
             before = st.conn.execute("SELECT coalesce(max(rowid), 0) FROM monkeytype_call_traces").fetchone()[0]
-            st.add(b)
+            # through the stock logger, as a traced run does it (log every trace, flush once at the end of the run)
+            lg = CallTraceStoreLogger(st)
+            for t in b:
+                lg.log(t)
+            lg.flush()
             if bi < len(days) and days[bi]:    # this run happened `days[bi]` days earlier
                 with st.conn:
                     st.conn.execute("UPDATE monkeytype_call_traces SET created_at = datetime(created_at, ?) WHERE rowid > ?",
@@ -556,6 +576,36 @@ def gen_same(tier, seed, env_text):
                  {"f": "K.c", "args": [d1], "ret": d2, "ys": []}]
         cases.append({"type": "same", "calls": calls, "k": 3, "rw": "NONE", "variants": variants(3, 4 if q else 8),
                       "family": "shared parameter name, different TypedDicts"})
+    # ONE function called with records of different shapes (traces that differ only inside their TypedDicts)
+    d3 = absmodel.T("dict", "", [absmodel.T("pair", "", [absmodel.T("str", "a"), absmodel.T("atom", "int")]),
+                                  absmodel.T("pair", "", [absmodel.T("str", "c"), absmodel.T("list", "", [absmodel.T("atom", "int")])])])
+    for g in range(4 if q else 40):
+        shapes3 = rng.sample([d1, d2, d3], 3)
+        calls = [{"f": "f1", "args": [sh], "ret": NONE, "ys": []} for sh in shapes3] + \
+                [{"f": "K.m", "args": [absmodel.T("list", "", [shapes3[0]])], "ret": shapes3[1], "ys": []},
+                 {"f": "K.m", "args": [absmodel.T("list", "", [shapes3[2]])], "ret": shapes3[1], "ys": []}]
+        cases.append({"type": "same", "calls": calls, "k": rng.choice([2, 3]), "rw": "NONE", "variants": variants(5, 5 if q else 8),
+                      "family": "one function, records of different shapes (traces differ only inside TypedDicts)"})
+    # a parameterless function returning a class of its own module next to functions taking / returning that class
+    KI = absmodel.T("atom", "mtp_target.K")
+    for g in range(3 if q else 30):
+        calls = [{"f": "z0", "args": [], "ret": KI, "ys": []}, {"f": "f1", "args": [KI], "ret": KI, "ys": []},
+                 {"f": "K.s", "args": [absmodel.T("list", "", [KI])], "ret": NONE, "ys": []}]
+        cases.append({"type": "same", "calls": calls, "k": 0, "rw": rng.choice(["DEFAULT", "NONE"]), "variants": variants(3, 5 if q else 8),
+                      "family": "parameterless function returning a class of its own module"})
+    # one generator run yielding two kinds of empty containers and their non-empty twins, in every rotation
+    I = absmodel.T("atom", "int")
+    cont = lambda kind, *xs: absmodel.T(kind, "", list(xs))  # noqa: E731
+    P2 = lambda k, v: absmodel.T("pair", "", [k, v])  # noqa: E731
+    shapes4 = [[cont("list"), cont("set"), cont("set", I), cont("list", I)],
+               [cont("dict"), cont("list"), cont("list", I), cont("dict", P2(I, I))],
+               [cont("set"), cont("list"), cont("dict"), cont("list", I), cont("set", I), cont("dict", P2(I, I))]]
+    for ysv in shapes4:
+        for perm in ([ysv, list(reversed(ysv))] if q else list(itertools.permutations(ysv))[:24]):
+            calls = [{"f": "g0", "args": [I], "ret": NONE, "ys": list(perm)}]
+            vs = [{"order": [0], "split": [], "seed": sd, "ys_rot": r} for r in range(len(perm)) for sd in ((0,) if q else (0, 3))]
+            cases.append({"type": "same", "calls": calls, "k": 0, "rw": "DEFAULT", "variants": vs,
+                          "family": "one generator yielding empty and non-empty containers of several kinds, every rotation"})
     # one long run (a single flush of > 1000 distinct traces through one connection) against the same traces
     # recorded as several short runs
     atoms = [absmodel.T("atom", a) for a in ("int", "float", "bool", "bytes", "NoneType")] + [absmodel.T("str", "s")]
